@@ -43,6 +43,7 @@ func init() {
 		runC19(c, c.N(240, 4000))
 		runC19Stale(c, c.N(40, 600))
 		runC19TimeAdd(c, c.N(300, 6000))
+		runC19Marshal(c, c.N(60, 1200), c.N(150, 3000)) // last: draws from the PRNG after every other stream
 	}
 }
 
@@ -877,6 +878,8 @@ func runC19(c *Ctx, n int) {
 		input := App("Build_c19_case", k.fieldsTerm(), k.callsTerm(), Bt(k.validate), Instant(k.now), S(k.alg), m.table, m.abbrT,
 			S(k.issuer), S(k.acs), S(k.slo), Bt(k.signReq), Bt(k.skipSig), Zt(k.hours))
 		cs.Add(input, obs, k.kinds()+fmt.Sprintf(" validate=%v clock=%s hours=%d alg=%q", k.validate, k.now.Format(time.RFC3339Nano), k.hours, k.alg))
+		// the bytes of xml.Marshal of both descriptors against the model of encoding/xml.Marshal (c19marshal.go)
+		c19AddXMLCase(c, input, md, mdErr, mds, mdsErr, "marshalled: "+k.kinds()+fmt.Sprintf(" clock=%s hours=%d issuer=%q", k.now.Format(time.RFC3339Nano), k.hours, k.issuer))
 
 		// ---- spec oracle (generator knowledge only)
 		ss, es := k.signingSlot(), k.encSlot()
